@@ -307,6 +307,33 @@ def _lower_for_each(B, bi, nm, done):
     return True
 
 
+def _lower_bool_then(B, bi, nm, done):
+    """`b.then(f)` / `b.then_some(v)`: if b { Some(f()) / Some(v) } else { None }"""
+    b = B.blocks[bi]
+    t = b["term"]
+    if t.get("t") is None or b["cleanup"] or len(t["args"]) != 2:
+        return False
+    cond, arg = t["args"]
+    ln = t.get("ln")
+    mark = {"low": nm}
+    crate = B.prog.doc.get("crate")
+    D, C = t["dest"], t["t"]
+    none_b = B.new_block([_assign(copy.deepcopy(D), _adt(OPT, "None", 0, []), ln)], {"k": "goto", "t": C, "ln": ln}, mark)
+    if nm.endswith("::then_some"):
+        some_b = B.new_block([_assign(copy.deepcopy(D), _adt(OPT, "Some", 1, [arg]), ln)], {"k": "goto", "t": C, "ln": ln}, mark)
+    else:
+        c = B.closure_of(arg)
+        if c is not None:
+            some_b = _closure_call_block(B, c[0], c[1], [], [], D, C, (OPT, "Some", 1), ln, mark, t.get("unwind"), crate)
+            done[c[0]] = done.get(c[0], 0) + 1
+        elif arg.get("k") == "const" and "fn" in arg:
+            some_b = _fn_call_block(B, arg["fn"], [], D, C, (OPT, "Some", 1), ln, mark, t.get("unwind"), None)
+        else:
+            return False
+    b["term"] = {"k": "switch", "d": cond, "dty": "bool", "targets": [[0, none_b]], "otherwise": some_b, "ln": ln, "was_call": nm}
+    return True
+
+
 def _lower_special(B, bi, nm, done):
     b = B.blocks[bi]
     t = b["term"]
@@ -465,6 +492,9 @@ def lower_program(prog, remap, make_fn):
                 nm = _callee(t["f"])
                 if nm in SPEC or nm in SPECIAL:
                     if _lower_combinator(B, i, done):
+                        any_change = True
+                elif nm and (nm.endswith("<impl bool>::then") or nm.endswith("<impl bool>::then_some")):
+                    if _lower_bool_then(B, i, nm, done):
                         any_change = True
                 elif nm and (nm == "std::iter::Iterator::for_each" or nm.endswith("as std::iter::Iterator>::for_each")):
                     if _lower_for_each(B, i, nm, done):
